@@ -52,14 +52,17 @@ for _pid, _why in [
 ]:
     na(_pid, _why)
 
-prop("C02", ["sql_prec"],
+prop("C02", ["sql_prec", "static_eval"],
      not_covered="evaluation inside the database; dialect templates beyond the strengths they declare; sites that build SQL operands "
                  "without translate_operand (process_concat, process_array_in, try_into_between) are not yet under contract")
 claim("C02",
       "PARTIAL-CORE. Proved for all inputs on the real functions: the parenthesisation rule (needs_parentheses = documented rule, NP1); "
       "translate_operand wraps exactly when the rule says so (TO1); translate_binary_operator passes each operand with the operator's own "
       "strength/associativity on the correct side (TB1); process_null emits IS [NOT] NULL on the operand that is not the null literal, "
-      "whichever side null is on (NP5); wrap_in_parenthesis really wraps (WP2). Table obligations (one per row): for every constructible "
+      "whichever side null is on (NP5); wrap_in_parenthesis really wraps (WP2); compile-time folding (static_eval_rq_operator, "
+      "static_eval_case, maybe_static_eval - verbatim) never changes the value an expression denotes under three-valued logic: not / and / or / eq / ne / neg / "
+      "coalesce of literals (SE1), `case` reduced to its first TRUE branch or null, for any number of branches (SE2, loop invariant), ids and spans kept (SE3). "
+      "Table obligations (one per row): for every constructible "
       "(parent operator, child class, side) the real strength/associativity tables never leave an operand bare where SQLite's documented "
       "grammar would re-associate it (NP2.*). NOT proved: that the database evaluates operators as documented.",
       "Oracle = SQLite's documented precedence table (the executable grammar here). translate_expr is external (uninterpreted result, "
@@ -198,7 +201,7 @@ def _safety(name):
 
 
 _ALL_UNITS = ["take_range", "sort_take", "split_order", "window_frame", "dialect_select", "ident_quote", "ids_names", "toposort", "rq_tables",
-              "select_shape", "span_units", "sql_prec", "prql_prec", "literals", "set_ops", "desugar", "resolve_guards", "lex_strings", "limit_clause"]
+              "select_shape", "span_units", "sql_prec", "prql_prec", "literals", "set_ops", "desugar", "resolve_guards", "lex_strings", "limit_clause", "static_eval"]
 prop("C12", _ALL_UNITS, select={u: _safety for u in _ALL_UNITS},
      not_covered="every function that is not under contract (~150 unwrap/expect sites, todo!() in type_intersection, panic!(cannot find cid) in lookup_cid), "
                  "recursion depth, chumsky, time bounds")
